@@ -154,7 +154,11 @@ Conforms(ev, V, W) ==
                                 ELSE IF ev.op = "RemoveTips"
                                 \* where the (pseudo-)root ends up, and hence whether it is bifurcating, depends
                                 \* on the order in which the tips are met
-                                THEN UCanon(MView(t)).len = UCanon(W).len /\ UCanon(MView(t)).sup = UCanon(W).sup
+                                \* (... and so does whether the last two clades end as the two branches of a rooted root, each
+                                \* with its own support, or are joined: supports are compared where both carry one branch)
+                                THEN LET a == UCanon(MView(t))
+                                         b == UCanon(W)
+                                     IN  a.len = b.len /\ \A s \in DOMAIN a.sup \cap DOMAIN b.sup : a.sup[s] = b.sup[s]
                                 ELSE UCanon(MView(t)) = UCanon(W)
 \* the call is modelled, the model applies to the recorded pre-state, and every result it allows is inside the domain of
 \* the properties, while the recorded result is outside
